@@ -530,7 +530,7 @@ class Extractor:
             # $1, $2 .. in the block stand for the text of the call's arguments (so a hint can speak about what was really passed)
             args = [a.strip() for a in split_top(body[i + 1:j])]
             blk = re.sub(r"\$(\d)", lambda m: args[int(m.group(1)) - 1] if int(m.group(1)) <= len(args) else "()", block)
-            body = body[:k + 1] + " " + blk + body[k + 1:]
+            body = body[:k + 1] + " " + blk + ("\n" if "//#" in blk else "") + body[k + 1:]
         return body, len(spans)
 
     def _splice_loops(self, body: str, loops: Dict[int, str], what: str) -> str:
